@@ -59,7 +59,23 @@ Mutable == {"cs", "nt", "mf", "na", "xr"}
 
 Slot(st, c, p) == IF p \in RegProps THEN st.cls[<<c, p>>] ELSE "abs"
 SetSlot(st, c, p, k) == [st EXCEPT !.cls[<<c, p>>] = k]
-SetInst(st, T, a, p) == [st EXCEPT !.inst = @ \cup {<<T, a, p>>}, !.asg = @ \ {<<T, a, p>>}]
+\* heap object served by an instance attribute / class default
+\* Co has a single row (Co-59) in the neutron table: the loader hands the isotope's record to the element
+\* ("if element.neutron is missing: element.neutron = nsf"), so within one table eD and iD serve the same Neutron
+\* object -- until the table's neutron data are loaded a second time (reload=True): the isotope gets a new record,
+\* the element is no longer "missing" and keeps the old one (st.det = tables where that has happened).
+ObjOfInst(st, T, a, p) == IF p = "cs" /\ ~FixCSCopy THEN <<"cs", "shared", a>>
+                          ELSE IF p = "nt" /\ a = "eD" /\ T \notin st.det THEN <<p, T, "iD">> ELSE <<p, T, a>>
+\* an instance attribute is (re)bound: the loader builds a new object for it, so in-place changes of the object bound
+\* before (by an earlier load or an assignment) are not in it -- unless the loader hands out one shared object
+SetInst(st, T, a, p) ==
+  LET detach == p = "nt" /\ a = "iD" /\ T \notin st.det /\ <<T, "iD", "nt">> \in st.inst /\ <<T, "eD", "nt">> \in st.inst
+      gone == {<<"assigned", T, a, p>>} \cup (IF p = "cs" /\ ~FixCSCopy THEN {} ELSE {ObjOfInst(st, T, a, p)})
+  IN [st EXCEPT !.inst = @ \cup {<<T, a, p>>}, !.asg = @ \ {<<T, a, p>>},
+                !.det = IF detach THEN @ \cup {T} ELSE @,
+                !.mut = IF detach                        \* the old record, with whatever was done to it, stays with the element
+                        THEN {IF m[1] = <<"nt", T, "iD">> THEN <<(<<"nt", T, "eD">>), m[2]>> ELSE m : m \in {x \in @ : x[1] # <<"assigned", T, a, p>>}}
+                        ELSE {m \in @ : m[1] \notin gone}]
 HasInst(st, T, a, p) == <<T, a, p>> \in st.inst
 
 PairsOf(g) == LET cs == RegOn(g) ps == PropsOf(g)
@@ -128,16 +144,10 @@ InitG(st, g, T) ==
 \* X.init(table, reload=True): the guard is ignored and the loader body runs again
 Reload(st, g, T) == InitG([st EXCEPT !.tp[T] = @ \ {g}], g, T)
 
-\* heap object served by an instance attribute / class default
-\* Co has a single row (Co-59) in the neutron table: the loader hands the isotope's record to the element,
-\* so within one table eD and iD serve the same Neutron object.
-Owner(a, p) == IF p = "nt" /\ a = "eD" THEN "iD" ELSE a
-ObjOfInst(T, a, p) == IF p = "cs" /\ ~FixCSCopy THEN <<"cs", "shared", a>>
-                      ELSE IF <<T, a, p>> \in {} THEN <<>> ELSE <<p, T, Owner(a, p)>>
 Mutated(st, o) == \E m \in st.mut : m[1] = o
 MutBy(st, o) == {m[2] : m \in {x \in st.mut : x[1] = o}}
 NoneData == {<<"e0", "cs">>}                  \* table entries whose value is None (the neutron has no crystal structure)
-InstObj(st, T, a, p) == IF <<T, a, p>> \in st.asg THEN <<"assigned", T, a, p>> ELSE ObjOfInst(T, a, p)
+InstObj(st, T, a, p) == IF <<T, a, p>> \in st.asg THEN <<"assigned", T, a, p>> ELSE ObjOfInst(st, T, a, p)
 ValOfInst(st, T, a, p) == IF p \in Mutable /\ Mutated(st, InstObj(st, T, a, p)) THEN "M"
                           ELSE IF <<T, a, p>> \in st.asg THEN "A"
                           ELSE IF <<a, p>> \in NoneData THEN "P" ELSE "D"
@@ -161,7 +171,7 @@ Read(st, T, a, p) ==                                     \* getattr(atom, p) wit
 St0 == [cls |-> [cp \in Classes \X RegProps |->
                    IF cp[2] = "ns" THEN (IF FixSpin /\ cp[1] = "Iso" THEN "pend" ELSE "abs")
                    ELSE IF cp[1] \in Rng(RegOn(GroupOf(cp[2]))) THEN "pend" ELSE "abs"],
-        inst |-> {}, asg |-> {}, tp |-> [T \in Tables |-> {}], tabs |-> {}, mut |-> {}]
+        inst |-> {}, asg |-> {}, tp |-> [T \in Tables |-> {}], tabs |-> {}, mut |-> {}, det |-> {}]
 
 \* ---- the canonical order (C09's oracle inside the model) ------------------
 CanonOrder == <<"cov", "cryst", "neut", "act", "xray", "emis", "mag">>
@@ -231,7 +241,7 @@ Events(st) ==
   \cup {[op |-> "calc", c |-> c] : c \in {x \in Calcs : CalcOK(x)}}
   \cup {[op |-> "import", m |-> m] : m \in {x \in Imports : ImportRelevant(x)}}
   \cup {[op |-> "init", g |-> g, T |-> T] : g \in Groups, T \in Live(st)}
-  \cup {[op |-> "reload", g |-> g, T |-> "pub"] : g \in Groups}          \* the documented way to restore the public data
+  \cup {[op |-> "reload", g |-> g, T |-> T] : g \in Groups, T \in Live(st)}   \* the documented way to restore a table's data
   \cup {[op |-> "create", T |-> T] : T \in PrivTables \ st.tabs}
   \cup (IF Cardinality(st.asg) >= MaxAsg THEN {} ELSE
         {[op |-> "assign", T |-> T, a |-> a, p |-> p] : T \in st.tabs, a \in {"eD", "eN", "iD"}, p \in AssignProps})
